@@ -17,6 +17,7 @@ import (
 	"net/url"
 	"os"
 	"path/filepath"
+	"runtime"
 	"strings"
 	"sync"
 	"sync/atomic"
@@ -287,6 +288,14 @@ func raceStock(h *raceH, p *prng, rounds int, dir string, withEnc bool) {
 		cbuf := &safeBuf{}
 		wsCE := &writer.Sink{Writer: cbuf, Format: string(cloudevents.FormatJSON)}
 		fsink := &eventlogger.FileSink{Path: filepath.Join(dir, fmt.Sprintf("stock%d", r)), FileName: "ev.log", MaxBytes: 300, MaxFiles: 2}
+		// FileSink's pass-through paths: the standard streams point at scratch files for the round
+		errF, _ := os.OpenFile(filepath.Join(dir, fmt.Sprintf("stderr%d", r)), os.O_CREATE|os.O_WRONLY|os.O_APPEND, 0o600)
+		outF, _ := os.OpenFile(filepath.Join(dir, fmt.Sprintf("stdout%d", r)), os.O_CREATE|os.O_WRONLY|os.O_APPEND, 0o600)
+		savedErr, savedOut := os.Stderr, os.Stdout
+		os.Stderr, os.Stdout = errF, outF
+		fserr := &eventlogger.FileSink{Path: "/dev/stderr"}
+		fsout := &eventlogger.FileSink{Path: "/dev/stdout"}
+		fsnull := &eventlogger.FileSink{Path: "/dev/null"}
 		ch := make(chan *eventlogger.Event, 64)
 		cs, _ := channel.NewChannelSink(ch, 50*time.Millisecond)
 		go func() {
@@ -294,6 +303,7 @@ func raceStock(h *raceH, p *prng, rounds int, dir string, withEnc bool) {
 			}
 		}()
 		reg := map[string]eventlogger.Node{
+			"fserr": fserr, "fsout": fsout, "fsnull": fsnull,
 			"filter": &eventlogger.Filter{Predicate: func(e *eventlogger.Event) (bool, error) { return true, nil }},
 			"json":   &eventlogger.JSONFormatter{}, "jsonff": &eventlogger.JSONFormatterFilter{}, "ce": ce, "enc": enc, "gated": gf,
 			"wsink": ws, "wsinkce": wsCE, "fsink": fsink, "chsink": cs,
@@ -305,6 +315,7 @@ func raceStock(h *raceH, p *prng, rounds int, dir string, withEnc bool) {
 		shapes := [][]string{
 			{"enc", "json", "wsink"}, {"filter", "enc", "jsonff", "fsink"}, {"json", "filter", "ce", "wsinkce"}, {"gated", "enc", "json", "chsink"},
 			{"ce", "enc", "json", "wsink"}, {"filter", "gated", "ce", "wsinkce"}, {"jsonff", "enc", "json", "fsink"}, {"enc", "filter", "ce", "chsink"},
+			{"json", "fserr"}, {"filter", "jsonff", "fsout"}, {"json", "fsnull"}, {"jsonff", "fserr"},
 		}
 		nP := 1 + p.intn(4)
 		if withEnc && nP == 1 {
@@ -353,6 +364,18 @@ func raceStock(h *raceH, p *prng, rounds int, dir string, withEnc bool) {
 		wg.Wait()
 		gf.FlushAll(context.Background())
 		close(ch)
+		os.Stderr, os.Stdout = savedErr, savedOut
+		for _, x := range []struct {
+			name string
+			f    *os.File
+			s    *eventlogger.FileSink
+		}{{"stderr", errF, fserr}, {"stdout", outF, fsout}} {
+			if fi, err := x.f.Stat(); err == nil && fi.Size() != x.s.BytesWritten {
+				h.oracle("C19 FileSink on /dev/%s: BytesWritten=%d but %d bytes were written (concurrent Process calls lost an update)", x.name, x.s.BytesWritten, fi.Size())
+			}
+			x.f.Close()
+			os.Remove(x.f.Name())
+		}
 		// per-sink output integrity: every line of the writer sink is one whole JSON document
 		for _, line := range strings.Split(strings.TrimSuffix(buf.b.String(), "\n"), "\n") {
 			if line == "" {
@@ -457,6 +480,91 @@ func raceGated(h *raceH, p *prng, rounds int) {
 	h.st.hit("gated:rounds")
 }
 
+// ---- encrot: rotation payloads against concurrent HMAC-ed events (C16, last clause) ----
+
+type slowRot struct {
+	w          wrapping.Wrapper
+	salt, info []byte
+}
+
+func (r *slowRot) Wrapper() wrapping.Wrapper { return r.w }
+func (r *slowRot) HmacSalt() []byte {
+	runtime.Gosched() // caller-supplied accessors take their time
+	time.Sleep(30 * time.Microsecond)
+	return r.salt
+}
+func (r *slowRot) HmacInfo() []byte {
+	runtime.Gosched()
+	return r.info
+}
+
+type hmacOnly struct {
+	V string `class:"sensitive,hmac-sha256"`
+}
+
+// every value HMAC-ed while rotation payloads (wrapper + salt + info together) and Rotate calls go by
+// must be under ONE of the key-material sets that were in force, wholly: never a mix
+func raceEncRot(h *raceH, p *prng, rounds int) {
+	ctx := context.Background()
+	for r := 0; r < rounds; r++ {
+		nSets := 4
+		f := &encrypt.Filter{Wrapper: testWrapper(1), HmacSalt: []byte("salt-0"), HmacInfo: []byte("info-0")}
+		want := map[string]int{}
+		for k := 0; k < nSets; k++ {
+			want[indepHmac(keyBytes(k+1), []byte(fmt.Sprintf("salt-%d", k)), []byte(fmt.Sprintf("info-%d", k)), []byte("value"))] = k
+		}
+		var wg sync.WaitGroup
+		stop := make(chan struct{})
+		wg.Add(1)
+		go func() {
+			defer wg.Done()
+			defer close(stop)
+			for k := 1; k < nSets; k++ {
+				time.Sleep(150 * time.Microsecond)
+				set := &slowRot{w: testWrapper(byte(k + 1)), salt: []byte(fmt.Sprintf("salt-%d", k)), info: []byte(fmt.Sprintf("info-%d", k))}
+				if k%2 == 1 {
+					f.Process(ctx, &eventlogger.Event{Type: "t", Payload: set, Formatted: map[string][]byte{}})
+				} else {
+					f.Rotate(encrypt.WithWrapper(set.w), encrypt.WithSalt(set.salt), encrypt.WithInfo(set.info))
+				}
+			}
+			time.Sleep(100 * time.Microsecond)
+		}()
+		nG := 2 + p.intn(4)
+		var mu sync.Mutex
+		for g := 0; g < nG; g++ {
+			wg.Add(1)
+			go func() {
+				defer wg.Done()
+				for {
+					select {
+					case <-stop:
+						return
+					default:
+					}
+					got, err := f.Process(ctx, &eventlogger.Event{Type: "t", Payload: &hmacOnly{V: "value"}, Formatted: map[string][]byte{}})
+					if err != nil || got == nil {
+						h.oracle("C16 Process failed during a rotation: %v", err)
+						return
+					}
+					v := got.Payload.(*hmacOnly).V
+					mu.Lock()
+					h.st.Ops++
+					if _, ok := want[v]; !ok {
+						h.oracle("C16 a value HMAC-ed while the key material was rotated is under none of the %d (wrapper, salt, info) sets that were in force: it mixes old and new key material", nSets)
+						mu.Unlock()
+						return
+					}
+					mu.Unlock()
+				}
+			}()
+		}
+		wg.Wait()
+		h.st.Cases++
+	}
+	h.st.hit("encrot:rounds")
+}
+
 func raceMain(args []string) {
 	fs := flag.NewFlagSet("race", flag.ExitOnError)
 	seed := fs.Uint64("seed", 1, "seed")
@@ -483,6 +591,8 @@ func raceMain(args []string) {
 			raceStock(h, p, *rounds, *out, true)
 		case "gated":
 			raceGated(h, p, *rounds*2)
+		case "encrot":
+			raceEncRot(h, p, *rounds*4)
 		}
 		st.hit("scenario:" + s)
 	}
